@@ -15,8 +15,9 @@ cannot be empty, while the statement only says "normalized URL"; both `http://ho
 accepted as the base string URI.
 
 When the result differs from the RFC the check computes what the reference gives with the *known deviations*
-switched on for exactly the features present in the input; only if that reproduces Tornado's bytes is the
-failure attributed (one ctx.fail per present root cause, each with its own narrow sig):
+switched on for a subset of the features present in the input (smallest subset first, so a partly repaired
+tree is attributed correctly); only if that reproduces Tornado's bytes is the failure attributed (one ctx.fail
+per deviation in that subset, each with its own narrow sig):
   C48.signature_mismatch.param_name_not_encoded   a parameter name contains a character outside the unreserved set
   C48.signature_mismatch.default_port_kept        the URL spells out :80 on http or :443 on https
   C48.signature_mismatch.oauth10_key_not_encoded  _oauth_signature (1.0) and a secret contains a non-unreserved character
@@ -40,6 +41,7 @@ Sensitivity (quick tier, seed 1, scratch copy of /repo/tornado):
 import base64
 import hashlib
 import hmac
+import itertools
 
 from hypothesis import strategies as st
 
@@ -273,12 +275,23 @@ def run_case(ctx, case):
         present.add("semi")
     want = sorted(refs(frozenset()))[0]
     detail["rfc5849"] = want
-    if present and got in refs(frozenset(present)):
-        for dev, sig in (("name", SIG_NAME), ("port", SIG_PORT), ("key10", SIG_KEY10), ("semi", SIG_SEMI)):
-            if dev in present and got not in refs(frozenset(present - {dev})):
-                # this deviation is necessary to explain the bytes Tornado produced
-                labels.add("deviates_" + dev)
-                ctx.fail("C48.signature_mismatch", dict(detail, root_cause=dev), sig=sig)
+    # the smallest set of known deviations (among those whose trigger is present) that reproduces the bytes;
+    # after a partial repair of Tornado only the unrepaired ones are needed
+    order = ("name", "port", "key10", "semi")
+    cands = [d for d in order if d in present]
+    explaining = None
+    for size in range(1, len(cands) + 1):
+        for combo in itertools.combinations(cands, size):
+            if got in refs(frozenset(combo)):
+                explaining = combo
+                break
+        if explaining:
+            break
+    if explaining:
+        sigs = {"name": SIG_NAME, "port": SIG_PORT, "key10": SIG_KEY10, "semi": SIG_SEMI}
+        for dev in explaining:
+            labels.add("deviates_" + dev)
+            ctx.fail("C48.signature_mismatch", dict(detail, root_cause=dev, explained_by=list(explaining)), sig=sigs[dev])
         ctx.note(case, labels, nontrivial)
         return
     ctx.fail("C48.signature_mismatch", dict(detail, features=sorted(present)), sig=SIG_GENERIC)
